@@ -10,6 +10,7 @@ CLAIMED = {
  "C06": "Static decision of C06.a-h: ConstructCredential returns a credential only after ProofS.Verify with the builder's own pk/context/nonce2, signature verification over [secret, attributes...], witness verification and binding (NonrevIndex) when a witness is present; assembled signature and credential fields and V = msg.V + vPrime as symbolic terms; blind-attribute sums with bounds/nil checks on every share; ProofS.Verify and Issuer.proveSignature hash the same five roles with the specified terms; ProofU response range, C comparison and contribution dependences; blind index convention on both sides; the e-interval/primality test of the signature check. That honest runs succeed for every configuration is not decided.",
  "C07": "Static decision of the randomness-hygiene discipline C07.a-g: every tabled randomiser is the direct result of its own approved generator call of the specified length, drawn in the constructor (inside the loop for per-element randomisers); the three allowed writes to attrRandomizers; randomiser-holding objects never stored in long-lived state, NewProofCommit does not write through the shared witness; consume-once typestate of the prepared non-revocation commitment (owners, one send site, capacity 1, flows of the received builder); CPRNG counter touched by exactly one atomic.AddUint64 per Read with the block index derived from it and advanced once per iteration; per-object memoisation; distinct generator calls and limits (symbolic terms) in the revocation commitment. The consequence (no extractor succeeds over any pair of proofs and any schedule) and the quality of crypto/rand are not decided.",
  "C08": "Static decision of nil/bounds safety as a validated-before-use typestate (C08.a/b): every dereference or indexing of a nullable value loaded from ProofD, ProofU, revocation.Proof, rangeproof.Proof or SignedAccumulator in the call tree of ProofList.Verify, ProofD/ProofU.Verify and the exported VerifyWithChallenge/ChallengeContribution methods is preceded on every path from an entry point by a nil/bounds test on the same access path, a successful validator call (validators computed by must-pass analysis, including for-all-elements loops) or an assignment of a trusted value; contributions are computed from sub-proofs only after their structure check; name sets of lookups (C08.c); reachable explicit panics are tabled (C08.d); ProofList.UnmarshalJSON yields only non-nil proofs (C08.e). Access paths are type-rooted (instance-insensitive); panics inside the standard library on exotic values and resource exhaustion are not decided.",
+ "C09": "Static decision of C09.a-f for Witness.Update and its helpers: commit-last (no store through the receiver can be followed by an error return), U replaced only after update verification, gcd test (ErrorRevoked on a common factor) and the final relation check on the stored value, with the Bezout update as a symbolic term; forward-only replacement (greater index, or same index and later time); window checks and product taken from our index+1; memo-key completeness of Update.Product(from) incl. Prepend; symbolic terms of Accumulator.Remove/newWitness/verify. The algebra itself and the abstract set-of-revoked-values model over histories are not decided.",
 }
 NA = {
  "C19": "every clause is a numerical result over unbounded integers (inverse, Legendre, CRT, square roots, four squares, modular reduction, primes in an interval); no sound static argument within this technique decides it (DESIGN.md section 4)",
